@@ -1,6 +1,6 @@
 (* C12 — NoExec, NoFileWrites and NoFileReads confine every program.
    Only statements closed by [exact] of a lemma proved in Proofs/, Print Assumptions,
-   non-vacuity examples and the _refuted witness.
+   non-vacuity examples.  (The _refuted witness of F-C12-1 is gone: repaired in goawk.)
    Model: Model/Sandbox.v (io.go getOutputStream, getInputScannerFile, getInputScannerPipe,
    nextLine, execShell; vm.go BuiltinSystem, BuiltinClose, getline).  [run_effects c e s h]
    is the trace of a run that issues the requests [h] in program order from state [s] under
@@ -63,46 +63,47 @@ Print Assumptions C12_std_names_never_opened.
 (* "attempt": with all three flags cleared the same request in the same state would perform
    an effect that a set flag of c forbids *)
 
-(* full statement *)
-Definition C12_denied_attempt_full_statement : Prop := denied_attempt_ends_run_full.
-
-(* refuted by the real code (finding F-C12-1): NoFileReads, operand in1, BEGIN { getline } *)
-Theorem C12_denied_attempt_refuted : ~ C12_denied_attempt_full_statement.
-Proof. exact denied_attempt_ends_run_refuted. Qed.
-Print Assumptions C12_denied_attempt_refuted.
-
-(* ... and the program goes on: BEGIN { getline; print > "out" } then opens "out" *)
-Theorem C12_swallowed_denial_run_continues :
-  run_log wit_cfg wit_env wit_state [NextLine ViaGetline; OpenWrite wit_out]
-  = [([], Continue RNeg1); ([CallOpenFile wit_out OTrunc], Continue RNone)].
-Proof. exact swallowed_denial_run_continues. Qed.
-Print Assumptions C12_swallowed_denial_run_continues.
-
-(* every request other than the plain getline: the step is a Stop with one of the five
-   sandbox errors and has touched nothing but standard streams *)
-Theorem C12_denied_attempt_stops_partial : forall c e s r,
-  r <> NextLine ViaGetline -> attempts c e s r -> denied_stops c e s r.
-Proof. exact denied_attempt_stops_partial. Qed.
-Print Assumptions C12_denied_attempt_stops_partial.
+(* every request form — redirections, system, the main loop and (since the repair of
+   F-C12-1) plain getline: the step is a Stop with one of the five sandbox errors and has
+   touched nothing but standard streams.  This is the former C12_denied_attempt_full_statement,
+   now a theorem; its refutation and the guard r <> NextLine ViaGetline are gone. *)
+Theorem C12_denied_attempt_stops : forall c e s r,
+  attempts c e s r -> denied_stops c e s r.
+Proof. exact denied_attempt_stops. Qed.
+Print Assumptions C12_denied_attempt_stops.
 
 (* anywhere in a history: the log of the run ends at the denied attempt *)
-Theorem C12_denied_attempt_ends_run_partial : forall c e s h1 r h2,
+Theorem C12_denied_attempt_ends_run : forall c e s h1 r h2,
   all_continue (run_log c e s h1) = true ->
-  r <> NextLine ViaGetline ->
   attempts c e (run_state c e s h1) r ->
   exists effs x,
     run_log c e s (h1 ++ r :: h2) = run_log c e s h1 ++ [(effs, Stop x)] /\
     is_sandbox_err x = true /\ forallb is_std effs = true.
-Proof. exact denied_attempt_ends_run_partial. Qed.
-Print Assumptions C12_denied_attempt_ends_run_partial.
+Proof. exact denied_attempt_ends_run. Qed.
+Print Assumptions C12_denied_attempt_ends_run.
 
-(* the excepted case exactly: getline yields -1, nothing but standard streams was touched *)
-Theorem C12_getline_operand_denied_swallowed : forall c e s,
+(* the former witness: NoFileReads, operand in1, BEGIN { getline; print > "out" } ends at the
+   getline with the NoFileReads error; "out" is not opened *)
+Theorem C12_plain_getline_denial_ends_run :
+  run_log wit_cfg wit_env wit_state [NextLine ViaGetline; OpenWrite wit_out]
+  = [([], Stop ENoFileReads)].
+Proof. exact plain_getline_denial_ends_run. Qed.
+Print Assumptions C12_plain_getline_denial_ends_run.
+
+(* plain getline and the main loop report the denial of a file operand alike *)
+Theorem C12_plain_getline_denied_like_main_loop : forall c e s,
   attempts c e s (NextLine ViaGetline) ->
-  snd (fst (io_step c e s (NextLine ViaGetline))) = Continue RNeg1 /\
-  forallb is_std (fst (fst (io_step c e s (NextLine ViaGetline)))) = true.
-Proof. exact getline_operand_denied_swallowed. Qed.
-Print Assumptions C12_getline_operand_denied_swallowed.
+  snd (fst (io_step c e s (NextLine ViaGetline))) = Stop ENoFileReads /\
+  snd (fst (io_step c e s (NextLine ViaMain))) = Stop ENoFileReads.
+Proof. exact plain_getline_denied_like_main_loop. Qed.
+Print Assumptions C12_plain_getline_denied_like_main_loop.
+
+(* only the denial is propagated: a failing open of the operand still gives getline -1 *)
+Theorem C12_plain_getline_open_error_is_minus1 : forall c e s,
+  snd (fst (next_line c e s)) = NLErr EOpen ->
+  snd (fst (io_step c e s (NextLine ViaGetline))) = Continue RNeg1.
+Proof. exact plain_getline_open_error_is_minus1. Qed.
+Print Assumptions C12_plain_getline_open_error_is_minus1.
 
 (* a Stop is the last entry of the log of a run: nothing happens after it *)
 Theorem C12_stop_ends_run : forall c e h s,
@@ -253,13 +254,17 @@ Example C12_ex_sandboxed :
   = [([], Stop ENoFileWrites)].
 Proof. vm_compute. reflexivity. Qed.
 
-(* the hypotheses of the denied-attempt theorems are satisfiable: an attempt, not a plain getline *)
+(* the hypotheses of the denied-attempt theorems are satisfiable, for each caller of nextLine too *)
 Example C12_ex_attempt :
   attempts (mkConfig true false false false) ex_env (init_state [] 0) (System ex_c1) /\
-  System ex_c1 <> NextLine ViaGetline /\
   attempts wit_cfg wit_env wit_state (NextLine ViaMain) /\
   attempts wit_cfg wit_env wit_state (NextLine ViaGetline).
-Proof. repeat split; try discriminate; vm_compute; reflexivity. Qed.
+Proof. repeat split; vm_compute; reflexivity. Qed.
+
+(* ... and of the open-error theorem: operand in1 whose open fails, no flag set *)
+Example C12_ex_open_error :
+  snd (fst (next_line (mkConfig false false false false) (env_of_tables [OsFail] [] true) wit_state)) = NLErr EOpen.
+Proof. vm_compute. reflexivity. Qed.
 
 (* close and reopen: the second open is gated again (denied here by a state reached with an open stream) *)
 Example C12_ex_close_reopen :
